@@ -455,34 +455,52 @@ def term_cases(res, rng, tier):
             if rng.random() < 0.3:
                 user = (user[1], user[0])
             res.count('spline with user edge_knots')
-        term = SplineTerm(0, n_splines=n, spline_order=k, basis='cp' if periodic else 'ps',
+        # a by-variable with EXACT zeros (a 0/1 indicator), the extremes of the feature sitting on rows where it is 0:
+        # the edge knots are (min, max) of the WHOLE feature column, whatever the by-variable is
+        use_by = rng.random() < 0.4
+
+        def by_for(col):
+            if rng.random() < 0.15:
+                return np.zeros(len(col))                   # all-zero by column
+            b = np.array([float(rng.random() < 0.6) for _ in col])
+            b[(col == col.min()) | (col == col.max())] = 0.0
+            inner = np.flatnonzero((col != col.min()) & (col != col.max()))
+            if len(inner):
+                b[inner[0]] = 1.0
+            return b
+        bys = [by_for(col) for col in hist] if use_by else None
+        if use_by:
+            res.count('spline term with a 0/1 by-variable that is 0 on the rows holding the extremes')
+        term = SplineTerm(0, n_splines=n, spline_order=k, basis='cp' if periodic else 'ps', by=1 if use_by else None,
                           dtype='categorical' if cat else 'numerical', edge_knots=None if user is None else list(user))
         with warnings.catch_warnings():
             warnings.simplefilter('ignore')
-            for col in hist:
-                term.compile(col[:, None])
+            for ci, col in enumerate(hist):
+                term.compile(np.c_[col, bys[ci]] if use_by else col[:, None])
             ek = tuple(float(v) for v in term.edge_knots_)
+        test_by = [rng.choice([0.0, 1.0, 1.0, -2.5, 0.375]) if use_by else 1.0 for _ in test]
         # the property statement, directly: default knots are (min, max) of the data of the last compile; given knots are kept
         want = user if user is not None else ((lo - 0.5, hi + 0.5) if cat else (float(lo), float(hi)))
         if tuple(ek) != tuple(float(v) for v in want):
             res.violations.append(dict(what='edge knots after SplineTerm.compile are not (min, max) of the compiled data / the given knots',
-                                       finding=None, input=dict(history=[h.tolist() for h in hist], edge_knots=user, categorical=cat),
+                                       finding=None, input=dict(history=[h.tolist() for h in hist], edge_knots=user, categorical=cat,
+                                                                by_history=None if bys is None else [b.tolist() for b in bys]),
                                        observed=list(ek), expected=list(map(float, want))))
         with warnings.catch_warnings():
             warnings.simplefilter('ignore')
             rows = []
-            for x in test:                                  # one call per point so that a raising point is isolated
+            for x, bv in zip(test, test_by):                # one call per point so that a raising point is isolated
                 try:
-                    rows.append(np.asarray(term.build_columns(np.array([[x]])).toarray(), dtype=float)[0])
+                    rows.append(np.asarray(term.build_columns(np.array([[x, bv]]) if use_by else np.array([[x]])).toarray(), dtype=float)[0])
                 except ValueError as e:
                     rows.append(('VE', str(e)))
         pts = []
-        for x, row in zip(test, rows):
+        for x, bv, row in zip(test, test_by, rows):
             if isinstance(row, tuple):
                 res.violations.append(dict(what='SplineTerm.build_columns raised on valid input', finding=None,
                                            input=dict(train=train.tolist(), x=float(x), n_splines=n, spline_order=k, periodic=periodic),
                                            observed=repr(row), expected='basis row'))
-            pts.append(point_coq(x, alternatives(x, ek, n, k, periodic), 1.0, row))
+            pts.append(point_coq(x, alternatives(x, ek, n, k, periodic), bv, row))
             res.case(('term', c, float(x)), nontrivial=True)
         res.count('SplineTerm.build_columns points', len(pts))
         cases.append('(CTerm %s %s %s (%s,%s) %d %d %s %s %s)' % (
@@ -490,6 +508,7 @@ def term_cases(res, rng, tier):
             'None' if user is None else '(Some (%s,%s))' % (dylit(user[0]), dylit(user[1])),
             coq_bool(cat), dylit(ek[0]), dylit(ek[1]), n, k, coq_bool(periodic), qlit(TOL), coq_list(pts)))
         meta.append(dict(kind='SplineTerm.build_columns', history=[h.tolist() for h in hist], edge_knots=user, test=test.tolist(),
+                         by_history=None if bys is None else [b.tolist() for b in bys], test_by=test_by,
                          n_splines=n, spline_order=k, periodic=periodic, categorical=cat))
     return cases, meta
 
